@@ -644,7 +644,7 @@ theorem loop_count (f : Nat) (ihC : CountIter img f) (n : Rv) (hn : RvOK n) (bod
   rw [assembleLoop_length]
   have hlen : counterTest.length = 4 := rfl
   have hlenp : (loopPost none).length = 4 := rfl
-  simp only [List.append_nil, List.nil_append, List.length_nil, Nat.add_zero, Nat.zero_add, hlen, hlenp]
+  simp only [List.nil_append, List.length_nil, Nat.add_zero, Nat.zero_add, hlen, hlenp]
     at hc ⊢
   simp only [execLoop] at h
   split at h
